@@ -13,6 +13,8 @@ import (
 	"reflect"
 	"sort"
 	"strings"
+	"sync"
+	"sync/atomic"
 	"testing"
 	"time"
 	"unicode/utf8"
@@ -1098,6 +1100,13 @@ func TestC14(t *testing.T) {
 	}
 	r.Extra["informational_probes_not_judged"] = probes
 
+	// (iii) reads while the node keeps writing: one writer re-writes 5 swaps with a growing version stamp (carried by
+	// three fields, with payloads of changing size so that pages are reused), readers call ListAll / GetData /
+	// ListAllByPeer as the RPC commands and SendEvent's own existence check do. Every machine that comes back must be
+	// one that was written: the three stamps agree, the version is not from the future, and no call fails.
+	conc := c14Concurrent(r, filepath.Join(base, "concurrent.db"), r.N(1, 6))
+	r.Extra["concurrent_reads_checked"] = conc
+
 	r.Require(nReal >= 150, fmt.Sprintf("only %d real records harvested", nReal))
 	r.Require(nMem*10 >= nReal*9, fmt.Sprintf("in-memory snapshot available for only %d of %d real writes", nMem, nReal))
 	for _, role := range []string{"in/sender", "in/receiver", "out/sender", "out/receiver"} {
@@ -1115,6 +1124,141 @@ func TestC14(t *testing.T) {
 			r.Inconclusive("generator does not know how to fill " + c)
 		}
 	}
+}
+
+// c14Concurrent: see TestC14 (iii). Returns the number of machines read and judged.
+func c14Concurrent(r *Run, path string, rounds int) int {
+	judged := 0
+	for round := 0; round < rounds; round++ {
+		os.Remove(path)
+		db, err := c14OpenDB(path)
+		if err != nil {
+			r.Inconclusive("concurrent part: " + err.Error())
+			return judged
+		}
+		st, err := swap.NewBboltStore(db)
+		if err != nil {
+			db.Close()
+			r.Inconclusive("concurrent part: " + err.Error())
+			return judged
+		}
+		var ids []*swap.SwapId
+		for i := 0; i < 5; i++ {
+			ids = append(ids, swap.NewSwapId())
+		}
+		mk := func(id *swap.SwapId, ver int) *swap.SwapStateMachine {
+			stamp := fmt.Sprintf("v%08d", ver)
+			return &swap.SwapStateMachine{SwapId: id, Type: swap.SWAPTYPE_OUT, Role: swap.SWAPROLE_RECEIVER, Current: swap.State_SwapOutReceiver_AwaitClaimInvoicePayment,
+				Data: &swap.SwapData{PeerNodeId: "02peer", CancelMessage: stamp, LastErrString: stamp, NextMessageType: ver,
+					OpeningTxHex: strings.Repeat("ab", 50+(ver*37)%3000), ClaimPreimage: stamp}}
+		}
+		var latest atomic.Int64
+		for _, id := range ids {
+			st.UpdateData(mk(id, 0))
+		}
+		stop := make(chan struct{})
+		var wg sync.WaitGroup
+		var mu sync.Mutex
+		bad := func(sig, det string) {
+			mu.Lock()
+			defer mu.Unlock()
+			r.Violate("reads-return-what-was-written", "C14|concurrent-read|"+sig, det, nil)
+		}
+		wg.Add(1)
+		go func() { // the writer
+			defer wg.Done()
+			for ver := 1; ; ver++ {
+				select {
+				case <-stop:
+					return
+				default:
+				}
+				latest.Store(int64(ver))
+				for _, id := range ids {
+					if err := st.UpdateData(mk(id, ver)); err != nil {
+						bad("write-fails", err.Error())
+						return
+					}
+				}
+			}
+		}()
+		check := func(sm *swap.SwapStateMachine, via string) {
+			mu.Lock()
+			judged++
+			mu.Unlock()
+			if sm == nil || sm.Data == nil || sm.SwapId == nil {
+				bad("nil-machine|"+via, "a read returned a machine without id or data")
+				return
+			}
+			d := sm.Data
+			if d.CancelMessage != d.LastErrString || d.CancelMessage != d.ClaimPreimage || d.CancelMessage != fmt.Sprintf("v%08d", d.NextMessageType) {
+				bad("torn-record|"+via, fmt.Sprintf("stamps disagree: %q %q %q %d", d.CancelMessage, d.LastErrString, d.ClaimPreimage, d.NextMessageType))
+				return
+			}
+			if int64(d.NextMessageType) > latest.Load() {
+				bad("version-from-the-future|"+via, fmt.Sprintf("%d > %d", d.NextMessageType, latest.Load()))
+			}
+			if want := 2 * (50 + (d.NextMessageType*37)%3000); len(d.OpeningTxHex) != want {
+				bad("torn-record|"+via, fmt.Sprintf("payload of version %d has %d characters, written with %d", d.NextMessageType, len(d.OpeningTxHex), want))
+			}
+		}
+		for k := 0; k < 3; k++ {
+			wg.Add(1)
+			go func(k int) { // readers
+				defer wg.Done()
+				defer func() {
+					if p := recover(); p != nil {
+						bad("panic", fmt.Sprintf("%v", p))
+					}
+				}()
+				for i := 0; ; i++ {
+					select {
+					case <-stop:
+						return
+					default:
+					}
+					switch (i + k) % 3 {
+					case 0:
+						all, err := st.ListAll()
+						if err != nil {
+							bad("read-fails|ListAll", err.Error())
+							return
+						}
+						if len(all) != len(ids) {
+							bad("wrong-number-of-records|ListAll", fmt.Sprintf("%d records, %d written", len(all), len(ids)))
+						}
+						for _, sm := range all {
+							check(sm, "ListAll")
+						}
+					case 1:
+						sm, err := st.GetData(ids[i%len(ids)].String())
+						if err != nil {
+							bad("read-fails|GetData", err.Error())
+							return
+						}
+						check(sm, "GetData")
+					case 2:
+						all, err := st.ListAllByPeer("02peer")
+						if err != nil {
+							bad("read-fails|ListAllByPeer", err.Error())
+							return
+						}
+						for _, sm := range all {
+							check(sm, "ListAllByPeer")
+						}
+					}
+				}
+			}(k)
+		}
+		time.Sleep(250 * time.Millisecond)
+		close(stop)
+		wg.Wait()
+		db.Close()
+		r.Eval()
+		r.Seen(fmt.Sprintf("concurrent/versions-written>=%d", min(latest.Load(), 100)/100*100))
+	}
+	os.Remove(path)
+	return judged
 }
 
 // c14Probe stores sm, reopens the file and describes what comes back.
